@@ -43,6 +43,13 @@ CHECKS = {
          "standards over generated keys/nonces/AAD/labels/lengths/chunkings; AEAD open() is attacked with exhaustive single-bit flips on a short message plus drawn mutations.",
          "references (vlib/refs) are validated at every run against FIPS/RFC vectors and the openssl CLI (selftest; failure = exit 2); functional equality only",
          "DESIGN.md §4 C09"),
+ "C11": ("exploration",
+         "differential property-based testing against a reference implicit-rejection decryption + wire-level metamorphic comparison through a deviant client",
+         "Ciphertexts are built from chosen encoded messages (valid ones and 14 defect classes incl. every separator position, wrong version bytes, wrong lengths, publicly invalid inputs) and RSAKey.decrypt must equal the reference "
+         "implicit-rejection function of (key, ciphertext), return None only for publicly invalid input and be deterministic; in RSA key-exchange handshakes (SSLv3..TLS 1.2) a deviant client substitutes each class and the server's "
+         "observable behaviour (records emitted, alert, exception, bytes consumed) must equal the control with a well-formed encryption of another random premaster.",
+         "functional equivalence only - timing is not measured; reference written from the construction the decrypt docstring describes",
+         "DESIGN.md §4 C11"),
  "C12": ("exploration",
          "property-based testing (Hypothesis + enumerated grids) against a direct executable specification",
          "ct_check_cbc_mac_and_pad is compared with a direct RFC specification of MtE CBC bodies on enumerated grids "
